@@ -186,6 +186,8 @@ def run_modified(ctx):
             crash = (kn in G.CRASH_KINDS) or (km in G.CRASH_KINDS and cls == "variational_gamma")
             if crash and sm is not False and cls != "maximization" and type(exc).__name__ in CODEC_EXC:
                 ctx.oracle_fail("%s:%s" % (FINDING_SIG, type(exc).__name__), repr(exc), payload)
+            elif not G.raised_in(exc, "set_time_metadata"):
+                ctx.tally("get_modified-raised-elsewhere(C35):" + type(exc).__name__)
             else:
                 ctx.oracle_fail("c32:unexpected-exception:%s" % type(exc).__name__, repr(exc), payload)
             continue
@@ -240,8 +242,8 @@ def run_date(ctx):
             crash = (kn in G.CRASH_KINDS) or (km in G.CRASH_KINDS and method == "variational_gamma")
             if crash and sm is not False and method != "maximization" and type(exc).__name__ in CODEC_EXC:
                 ctx.oracle_fail("%s:%s" % (FINDING_SIG, type(exc).__name__), repr(exc), payload)
-            elif type(exc).__name__ in ("AssertionError", "LibraryError", "FloatingPointError", "ZeroDivisionError"):
-                ctx.tally("date-raised-elsewhere(C35)")   # not the metadata policy's business
+            elif not G.raised_in(exc, "set_time_metadata"):
+                ctx.tally("date-raised-elsewhere(C35):" + type(exc).__name__)   # not the metadata policy's business
             else:
                 ctx.oracle_fail("c32:unexpected-exception:%s" % type(exc).__name__, repr(exc), payload)
             continue
